@@ -161,10 +161,11 @@ class Scenario:
         if r == "unsat":
             if self.twins == 0 and not a.is_const():
                 # reachability twin: a deliberately wrong reference must be refuted
-                rt, _ = CTX.check(eq_formula(a, b + Sym.const(1.0)), self.qtimeout)
-                if rt != "sat":
+                rt, _ = CTX.check(eq_formula(a, b + Sym.const(1.0)), min(self.qtimeout, 20000))
+                if rt == "unsat":
                     raise HarnessError("vacuous: wrong-reference twin not refuted (%s) at %s" % (rt, lab))
-                self.twins += 1
+                if rt == "sat":
+                    self.twins += 1  # (unknown: try again on the next obligation; vacuity_guard falls back to the witness check)
             return True
         if r == "unknown":
             return False
